@@ -258,6 +258,9 @@ func genFlat(seed uint64) (*world, *SX) {
 				has, static := false, 0
 				if r.chance(30) {
 					static = r.below(64)
+					if r.chance(30) {
+						static = int(uint32(static) | []uint32{0x80000000, 0x20000000, 0xE0000000}[r.below(3)])
+					}
 					if err := m.SetStaticCANID(acmelib.CANID(static)); err == nil {
 						has = true
 						w.count("msg-static-canid")
@@ -275,10 +278,19 @@ func genFlat(seed uint64) (*world, *SX) {
 				}
 				cyc, send, del, sdel := 0, 0, 0, 0
 				if r.chance(50) {
-					cyc, send, del, sdel = r.rangeInt(0, 1000), r.below(5), r.rangeInt(0, 50), r.rangeInt(0, 50)
+					cyc = r.rangeInt(1, 1000)
 					m.SetCycleTime(cyc)
+				}
+				if r.chance(40) {
+					send = r.below(5)
 					m.SetSendType(acmelib.MessageSendType(send))
+				}
+				if r.chance(50) {
+					del = r.rangeInt(1, 50)
 					m.SetDelayTime(del)
+				}
+				if r.chance(50) {
+					sdel = r.rangeInt(1, 50)
 					m.SetStartDelayTime(sdel)
 				}
 				masg := g.assignSome(m, "msg")
